@@ -16,6 +16,10 @@ def collections_for(L):
             out.append((f"array2d:{r}x{c}", [[well_id(i, j) for j in range(c)] for i in range(r)]))
             if 1 < r and L <= 12:
                 out.append((f"nested:{r}x{c}", [[well_id(i, j) for j in range(c)] for i in range(r)]))  # e.g. trough.wells.tolist()
+    if 2 <= L <= 12:
+        # ndarray subclasses: a numpy matrix (always 2-D) and masked arrays (the mask is dropped, like numpy.array does)
+        out.append(("matrix", [flat]))
+        out.append(("masked", flat))
     if L >= 2:
         # a well may be listed several times (two tips into the same compartment)
         out.append(("repeats", [flat[i // 2] for i in range(L)]))
@@ -70,6 +74,14 @@ class Harness(cm.BaseB):
             arg = [list(x) if isinstance(x, list) else x for x in nested]
         elif kind == "tuple":
             arg = tuple(nested)
+        elif kind == "matrix":
+            import warnings
+
+            with warnings.catch_warnings():
+                warnings.simplefilter("ignore")
+                arg = np.asmatrix(np.array(nested))
+        elif kind == "masked":
+            arg = np.ma.MaskedArray(np.array(nested), mask=[i % 2 == 1 for i in range(L)])
         else:
             arg = np.array(nested)
         ref = flat_f(nested)
